@@ -4,17 +4,22 @@
  * (rqpush/rqpop/rqsteal), every access to every fiber's state word, and the context
  * switch / create / destroy events; the runtime model `Rt` consumes exactly those.
  * usage: rt <kernel threads> <script>; ops: y yield, l/u mutex lock/unlock, w/p semaphore
- * wait/post, s sleep one tick */
+ * wait/post, s sleep one tick, r<k>/x<k> read / write one byte on pipe k (k = 0, 1) through the
+ * library's read()/write() shims: a read on an empty pipe parks the fiber in
+ * fiber_wait_for_event (P-lock on the descriptor's spinlock) until a poll on some kernel
+ * thread reports the descriptor readable */
 #define VH_REG_RESULT 1
 #include "rtcommon.h"
 #include "fiber_event.h"
 #include "fiber_mutex.h"
 #include "fiber_semaphore.h"
+#include <unistd.h>
 
 
 static fiber_mutex_t mtx;
 static fiber_semaphore_t sem;
 static int holding[VH_MAXF];
+static int pipes[2][2];
 
 static void do_op(int t, const char* op) {
   switch (op[0]) {
@@ -24,6 +29,8 @@ static void do_op(int t, const char* op) {
     case 'w': fiber_semaphore_wait(&sem); break;
     case 'p': fiber_semaphore_post(&sem); break;
     case 's': fiber_sleep(0, 1000); break;
+    case 'r': { char c = 0; int k = op[1] == '1'; if (read(pipes[k][0], &c, 1) != 1) vr_finish("IOERR"); break; }
+    case 'x': { char c = 'x'; int k = op[1] == '1'; if (write(pipes[k][1], &c, 1) != 1) vr_finish("IOERR"); break; }
   }
 }
 
@@ -36,6 +43,7 @@ VH_NOINSTR int main(int argc, char** argv) {
   fiber_mutex_init(&mtx);
   /* posts by the script always outnumber waits (generator), plus slack */
   fiber_semaphore_init(&sem, 0);
+  if (pipe(pipes[0]) || pipe(pipes[1])) return 2;
   vr_note("init rt %d", k);
   vh_rt_run_join(k, do_op, 0);
   /* let the system go quiescent once (the idle monitor looks at the run queues then) */
